@@ -555,6 +555,39 @@ theorem deser_aggregate_shape (S : StrFns) (c : Cls) (ov : Option MDict) (camel 
   simp only [regionOK, and_true_iff'] at h
   exact c07_foldAdd_base S c.fields _ h.1.1.2
 
+/-! ### plain mappers satisfy the step conditions of the region -/
+
+/-- an enum mapper, or a dict without `"<field>._mapper"` entries -/
+def plainMapper : Mapper → Bool
+  | .dict d => d.all fun p => match p.1 with | .fld _ => true | .nest _ => false
+  | _ => true
+
+theorem plain_lookup_nest (d : MDict) (c : String) (h : plainMapper (.dict d) = true) :
+    lookupR (.nest c) d = none := by
+  apply lookupR_none_of_not_mem
+  intro hm
+  obtain ⟨p, hp, hpk⟩ := List.mem_map.mp hm
+  unfold plainMapper at h
+  have := all_mem h hp
+  rw [hpk] at this
+  simp at this
+
+/-- **The per-round step conditions of the region are automatic for plain mappers**: an enum mapper or a
+    dict without `"<field>._mapper"` entries never takes the 'already maps to this value' branch on a
+    nested entry and lets the same sub-mapper through in both directions — so for a class tree whose
+    mappers are all plain, `prefixOK` only asks that no two entries collide. -/
+theorem step_ok_of_plain (S : StrFns) (m : Mapper) (P : List Mapper) (f : Fld) (h : plainMapper m = true) :
+    stepFldOK S m P f = true := by
+  cases f with
+  | scalar n o => rfl
+  | mapped n o ci fs => rfl
+  | nested n o sh ci fs =>
+    cases m with
+    | lower => simp [stepFldOK, stepNestOK, hit, subAgree]
+    | camel => simp [stepFldOK, stepNestOK, hit, subAgree]
+    | dict d =>
+      simp [stepFldOK, stepNestOK, hit, subAgree, plain_lookup_nest d _ h]
+
 /-- `_convert_to_camelcase` is idempotent on the driver's ASCII strings (its result has no underscore) -/
 theorem camel_idempotent_ascii (s : String) : asciiFns.camel (asciiFns.camel s) = asciiFns.camel s :=
   c07_camelAscii_idem s
